@@ -457,6 +457,24 @@ func runGovc(opt Options) (*Report, error) {
 		}(i, o)
 	}
 	wg.Wait()
+	// second chance: obligations that timed out under the parallel load are re-run one at a time with a
+	// longer limit before they are reported (a timeout is "undecided", and contention must not raise alarms)
+	for i, o := range all {
+		if o.NAsserts < 0 || o.Vacuity {
+			continue
+		}
+		if o.Res.Result == "unsat" || o.Res.Result == "sat" {
+			continue
+		}
+		saved := o.Res
+		r2 := runRetry(work, fmt.Sprintf("q%04dretry", i), o.query(), opt.Timeout*3)
+		if r2.Result == "unsat" || r2.Result == "sat" {
+			r2.Solver += " (retry, sequential)"
+			o.Res = r2
+		} else {
+			o.Res = saved
+		}
+	}
 	rep.SolveS = time.Since(t2).Seconds()
 	byFn := map[string]*FnReport{}
 	for _, f := range rep.Functions {
